@@ -60,7 +60,8 @@ def gen(rng, scenario, tier):
             pts = _points(rng, m, d, mode, center=rng.choice([0.0, 0.0, 1.5]), scale=rng.choice([1.0, 3.0]))
             if pts and rng.random() < 0.3:
                 pts[0] = list(rng.choice(build))  # a point exactly equal to a build point (possibly on a split value)
-            ops.append(["fill", pts, rng.choice(ids), rng.random() < 0.5])
+            # (also under the id "build": a reference that is grown or replaced incrementally)
+            ops.append(["fill", pts, rng.choice(ids + ["build"]) if rng.random() < 0.25 else rng.choice(ids), rng.random() < 0.5])
         elif c < 0.6:
             ops.append(["refill_build", rng.choice(["copy1", "copy2"])])
         elif c < 0.68:
